@@ -46,11 +46,12 @@ class Unit:
         from .interp import Config
         cfg = Config()
         for c in self.contracts:
+            # loop annotations of a contract stay available when its body is inlined instead (helper re-verification)
+            for k, v in getattr(c, 'loops', {}).items():
+                cfg.loops[(c.qual, k) if not isinstance(k, tuple) else k] = v
             if c.qual in exclude:
                 continue
             cfg.contracts[c.qual] = c
-            for k, v in getattr(c, 'loops', {}).items():
-                pass
         cfg.loops.update(self.loops)
         cfg.no_inline |= self.no_inline
         cfg.ext.update(self.ext)
